@@ -26,6 +26,8 @@ DOMAINS = {
     'sparse': [0, 1, 5, 17, 100, 1000, 9999],
     'descending': [40, 30, 20, 10, 5, 3, 2, 1, 0],
     'tiny': [0, 1, 2],
+    # tables of more than 65536 slots (a high-cardinality group_by; one far-away index): block-wise walks, 16-bit counters
+    'far': [0, 3, 65535, 65536, 65537, 70001, 100000, 131072, 200003],
     # sequential growth far beyond CPython's small-int cache and typical allocation blocks (64 / 256 / 1024)
     'wide': list(range(0, 1300)),
 }
@@ -222,7 +224,7 @@ class C14(Check):
                    'del_map is not part of the property (the quantifier does not list it) and is only exercised through group_by in (b)']
     ANCHORS = ['rxsci/state/memory_store.py', 'rxsci/state/store.py']
     REQUIRED_TAGS = ['dtype=int', 'dtype=uint', 'dtype=float', 'dtype=bool', 'dtype=obj', 'dtype=mapper', 'default', 'no-default',
-                     'direct', 'manager', 'sparse', 'descending', 'pipeline', 'wide', 'stepwise-walk', 'type-names-built-at-run-time']
+                     'direct', 'manager', 'sparse', 'descending', 'pipeline', 'wide', 'far', 'stepwise-walk', 'type-names-built-at-run-time']
     REQUIRED_OBSERVED = ['walk_steps', 'untouched_slots_checked_in_walks', 'store.add_key', 'store.set', 'store.get', 'store.del_key', 'store.iterate',
                          'store.add_map', 'store.get_map', 'store.iterate_map', 'slot_rereads']
 
@@ -231,6 +233,7 @@ class C14(Check):
         dts = list(DTYPES)
         doms = list(DOMAINS)
         pnames = sorted(_pipelines())
+        h = -1
         for k in range(n):
             if k % 6 == 5:
                 yield {'kind': 'pipeline', 'name': pnames[(k // 6) % len(pnames)],
@@ -246,11 +249,14 @@ class C14(Check):
                     default = {'int': rng.choice([0, -1, 5]), 'uint': rng.choice([0, 7]), 'float': rng.choice([0.0, 1.5]),
                                'bool': rng.choice([False, True]), 'obj': rng.choice([0, 'd', [1]])}[dt]
                 states.append({'dtype': dt, 'default': default})
-            dom = doms[k % len(doms)]
-            if dom == 'wide' and k % 4:
+            h += 1                      # (history cases only: the domains must not beat with the pipeline turn)
+            dom = doms[h % len(doms)]
+            if dom == 'wide' and (h // len(doms)) % 4:
                 dom = 'sparse'          # the wide histories are long: one in four of their turn
+            if dom == 'far' and (h // len(doms)) % 5:
+                dom = 'descending'      # every walk over a table of 200 000 slots is slow: one in five, short histories
             yield {'kind': 'history', 'states': states, 'via': 'direct' if (nstates == 1 and k % 2) else 'manager',
-                   'domain': dom, 'ops': gen_history(rng, states, rng.choice([50, 120, 400]) if dom != 'wide' else 900, dom),
+                   'domain': dom, 'ops': gen_history(rng, states, 900 if dom == 'wide' else 30 if dom == 'far' else rng.choice([50, 120, 400]), dom),
                    'dtype_literals': bool(k % 2)}
 
     # ------------------------------------------------------------------
